@@ -36,12 +36,20 @@ def NumText.WF (t : NumText) : Prop :=
   (∀ m s ds, t.exp = some (m, s, ds) → (m = 'e' ∨ m = 'E') ∧ (s = none ∨ s = some '+' ∨ s = some '-') ∧
       ds ≠ [] ∧ ∀ c ∈ ds, isDigit c = true)
 
+def fracText : Option (List Char) → List Char
+  | none => []
+  | some f => '.' :: f
+
+def expSignText : Option Char → List Char
+  | none => []
+  | some c => [c]
+
+def expText : Option (Char × Option Char × List Char) → List Char
+  | none => []
+  | some (m, s, ds) => m :: (expSignText s ++ ds)
+
 def NumText.render (t : NumText) : List Char :=
-  (if t.neg then ['-'] else []) ++ t.intDigits ++
-  (match t.frac with | none => [] | some f => '.' :: f) ++
-  (match t.exp with
-   | none => []
-   | some (m, s, ds) => m :: ((match s with | none => [] | some c => [c]) ++ ds))
+  (if t.neg then ['-'] else []) ++ (t.intDigits ++ (fracText t.frac ++ expText t.exp))
 
 /-- coefficient and exponent: the text denotes  ±coeff · 10^expo -/
 def NumText.coeff (t : NumText) : Nat := digitsVal (t.intDigits ++ (t.frac.getD []))
